@@ -145,6 +145,11 @@ def run_case(spec, j):
     idx = np.array(idx, copy=True)
     for k_ in range(1 + (len(idx) > 6)):
       idx[k_, 1] = idx[k_, 0]
+  if name == 'LSML' and spec['weights'] is None and len(idx) >= 5:
+    # a constraint listed k times weighs k / n
+    idx = np.array(idx, copy=True)
+    idx[2] = idx[0]
+    idx[4] = idx[0]
   Q = X[idx]
   vab = Q[:, 0] - Q[:, 1]
   vcd = Q[:, 2] - Q[:, 3]
